@@ -236,7 +236,7 @@ PROPS["C10"] = dict(
     assumptions=[],
     keep_ids=_only(lambda i: i in (1, 2) or 300 <= i < 400),
     classify=_cls({321: "input_named_twice"}),
-    check_names={301: "no empty multi-asset map", 302: "no empty set/map field", 321: "the template names one UTxO in two input positions (recorded finding F10-3: the inputs field lists it twice)", 303: "no duplicate inputs", 307: "no duplicate reference inputs, collateral inputs or required signers", 304: "network id",
+    check_names={301: "no empty multi-asset map", 302: "no empty set/map field", 321: "the template names one UTxO in two input positions (recorded finding F10-5: the inputs field lists it twice)", 303: "no duplicate inputs", 307: "no duplicate reference inputs, collateral inputs or required signers", 304: "network id",
                  305: "script data hash present iff redeemers", 306: "auxiliary data hash present iff metadata",
                  311: "payload decodes as a Conway transaction", 312: "reported hash = Blake2b-256 of the body bytes in the payload",
                  313: "auxiliary data hash = digest of the auxiliary data", 314: "compiling twice gives identical bytes", 316: "script data hash = digest of redeemers + language view"},
